@@ -522,10 +522,31 @@ def g_layout(lay):
                                                   "true" if d else "false") for (i, e, s, d) in lay) + "]"
 
 
+def inert_annotation_scopes(tree):
+    """`from __future__ import annotations` makes annotations unevaluated text: a lambda / comprehension / walrus
+    inside one is then not a scope of the program (CPython's symbol table keeps it apart in an annotation block).
+    PyF has no notion of inert expressions, so such modules are outside it."""
+    future = any(isinstance(st, ast.ImportFrom) and st.module == "__future__"
+                 and any(a.name == "annotations" for a in st.names) for st in tree.body)
+    if not future:
+        return False
+    anns = []
+    for n in ast.walk(tree):
+        if isinstance(n, ast.arg) and n.annotation is not None:
+            anns.append(n.annotation)
+        elif isinstance(n, (ast.FunctionDef, ast.AsyncFunctionDef)) and n.returns is not None:
+            anns.append(n.returns)
+        elif isinstance(n, ast.AnnAssign):
+            anns.append(n.annotation)
+    return any(isinstance(m, _SCOPE_NODES + (ast.NamedExpr,)) for a in anns for m in ast.walk(a))
+
+
 def to_gallina(source):
     try:
         tree = ast.parse(source)
     except (SyntaxError, ValueError, RecursionError):
+        return None
+    if inert_annotation_scopes(tree):
         return None
     tr = Translation(source)
     tr.tree = tree
@@ -993,6 +1014,12 @@ def gen_module(rng, features=(), size=14):
         g = _Gen(rng, features, size)
         mnames = sorted(set(rng.sample(POOL, rng.randint(2, 5))))
         classes = []
+        if rng.random() < 0.2:
+            # a __future__ import (must come first): binds the feature name, or its alias, at module level
+            feats = rng.sample(["annotations", "division", "print_function", "generators", "with_statement"],
+                               rng.randint(1, 2))
+            g.emit(0, "from __future__ import " + ", ".join(
+                f + ((" as " + rng.choice(POOL + ["ann"])) if rng.random() < 0.35 else "") for f in feats))
         # module-level bindings first, so that `global x` in functions refers to a name the module binds
         for x in mnames:
             r = rng.random()
@@ -1016,6 +1043,8 @@ def gen_module(rng, features=(), size=14):
         try:
             compile(src, "m.py", "exec")
         except (SyntaxError, ValueError):
+            continue
+        if inert_annotation_scopes(ast.parse(src)):
             continue
         return src
     return None
